@@ -281,9 +281,24 @@ def lean_files():
     return sorted(out)
 
 
-def forbidden_scan():
+def import_closure(modules):
+    """project files reachable from the given modules through `import UtapModel…` lines"""
+    seen, todo = [], list(modules)
+    while todo:
+        m = todo.pop()
+        path = os.path.join(LEAN_DIR, *m.split(".")) + ".lean"
+        if path in seen or not os.path.exists(path):
+            continue
+        seen.append(path)
+        for mm in re.finditer(r"^\s*(?:public\s+)?import\s+(UtapModel[\w.]*)", strip_lean_comments(open(path).read()), re.M):
+            todo.append(mm.group(1))
+    return sorted(seen)
+
+
+def forbidden_scan(modules=None):
+    """forbidden tokens (sorry, axiom, native_decide, …) in the files a proof depends on (all project files if modules is None)"""
     hits = []
-    for p in lean_files():
+    for p in (import_closure(modules) if modules else lean_files()):
         src = strip_lean_comments(open(p).read())
         for m in FORBIDDEN.finditer(src):
             line = src.count("\n", 0, m.start()) + 1
@@ -440,7 +455,7 @@ class Ctx:
     def prove(self, module, exes=()):
         """lake build of the property module (+ driver exes), forbidden-token scan, axiom audit.
         Fills the proof keys of coverage.  Returns (ok, log)."""
-        hits = forbidden_scan()
+        hits = forbidden_scan([module])
         ok, out = lake_build([module] + list(exes))
         cov = self.coverage
         cov["checker_cmd"] = "cd lean && lake build %s && lake env lean <#print axioms on every theorem>" % module
